@@ -23,7 +23,11 @@ struct FakeDataset {
 	uint8_t* base = nullptr;
 	size_t window = 0;
 	bool ok = false;
-	explicit FakeDataset(uint64_t seed, size_t windowBytes = 32u << 20) {
+	// extentBytes: the extent the fake dataset stands for. Default = the size the configuration implies; C06 passes the size the
+	// library itself requests in randomx_alloc_dataset (libraryDatasetExtent), so that a read beyond what the library would have
+	// allocated lands in the guard page.
+	explicit FakeDataset(uint64_t seed, size_t windowBytes = 32u << 20, uint64_t extentBytes = 0) {
+		const uint64_t kDatasetBytes = extentBytes ? extentBytes : rxv::kDatasetBytes;
 		window = windowBytes;
 		int fd = memfd_create("rxv-dataset", 0);
 		if (fd < 0 || ftruncate(fd, (off_t)window) != 0) return;
@@ -50,6 +54,20 @@ struct FakeDataset {
 	}
 	randomx_dataset* get() { return &ds; }
 };
+
+// The number of bytes the library itself requests for a dataset: observed through the allocation interposer during one
+// randomx_alloc_dataset(RANDOMX_FLAG_DEFAULT) call (untouched pages, released at once). 0 if it cannot be observed.
+// Call before ip::enableGuards / setGarbageSeed so that the 2 GiB block is not filled.
+inline uint64_t libraryDatasetExtent() {
+	const size_t ev0 = ip::eventCount();
+	randomx_dataset* d = api::allocDataset(RANDOMX_FLAG_DEFAULT);
+	if (!d) return 0;
+	const uintptr_t mem = (uintptr_t)randomx_get_dataset_memory(d);
+	uint64_t len = 0;
+	for (size_t i = ev0; i < ip::eventCount(); ++i) { ip::Event e = ip::eventAt(i); if (e.kind == ip::K_MEMALIGN && e.result == 0 && e.addr == mem) len = e.len; }
+	api::releaseDataset(d);
+	return len;
+}
 
 inline std::string flagsName(int f) {
 	std::string s;
